@@ -47,6 +47,17 @@ func Specs(cl Clauses, thorough bool) []Spec {
 		{"2001:db8::/126", 128, nil}, {"2001:db8::5/125", 128, []int{0, 7}},
 		{"2001:db8:0:8::/61", 64, []int{0, 1, 7}}, {"2001:db8:0:1800::/53", 56, []int{0, 7}}, {"2001:db8:7::/48", 51, []int{1, 7}},
 	}
+	// width boundaries for the bitmap allocator (byte, 64-bit half, address end), short histories
+	for _, x := range []g{
+		{"10.0.2.0/23", 25, []int{0, 3}}, {"10.0.0.0/22", 25, []int{0, 7}}, {"10.127.0.0/15", 17, []int{0, 3}}, {"10.0.0.248/29", 32, []int{0, 7}},
+		{"2001:db8:0:4::/62", 65, []int{0, 7}}, {"2001:db8:0:5::/63", 66, []int{0, 7}}, {"2001:db8:0:1::/64", 66, []int{0, 3}}, {"2001:db8:0:4::/62", 63, []int{0, 1}},
+		{"2001:db8:0:1:800::/69", 72, []int{0, 7}}, {"2001:db8::8/125", 127, []int{0, 3}}, {"2001:db8::8/125", 128, []int{0, 7}},
+	} {
+		x := x
+		add("allocator.IPAllocator", fmt.Sprintf("%s->/%d (width boundary)", x.net, x.unit), 3, 2, func() explore.System {
+			return NewBitmap(cl, BitmapCfg{Net: x.net, UnitLen: x.unit, Subs: subs[:2], SpecUnits: x.spec})
+		})
+	}
 	for _, x := range geoms {
 		x := x
 		dd, ndd := d, 2
@@ -93,6 +104,17 @@ func Specs(cl Clauses, thorough bool) []Spec {
 			name = "dhcpv6.PrefixPool"
 		}
 		add(name, fmt.Sprintf("%s->/%d", c.Net, c.Delegated), d+1, nd, func() explore.System { return NewV6(cl, c) })
+	}
+	// width boundaries: delegation lengths on both sides of every byte / 64-bit-half / address-end boundary
+	// (63,64,65,66,72,73,127,128) and pool prefixes straddling them; geometry defects show within a few steps
+	for _, c := range []V6Cfg{
+		{"2001:db8:0:4::/62", 63, subs}, {"2001:db8:0:4::/62", 64, subs}, {"2001:db8:0:4::/62", 65, subs}, {"2001:db8:0:5::/63", 66, subs},
+		{"2001:db8:0:1::/64", 65, subs}, {"2001:db8:0:1::/64", 66, subs}, {"2001:db8:0:1:800::/69", 72, subs}, {"2001:db8:0:1:80::/71", 73, subs},
+		{"2001:db8::1:0:0/78", 81, subs}, {"2001:db8::8/125", 127, subs}, {"2001:db8::8/125", 128, subs}, {"2001:db8::c/126", 128, subs},
+		{"2001:db8:0:40::/58", 60, subs}, {"2001:db8:80::/41", 44, subs},
+	} {
+		c := c
+		add("dhcpv6.PrefixPool", fmt.Sprintf("%s->/%d (width boundary)", c.Net, c.Delegated), 4, 2, func() explore.System { return NewV6(cl, c) })
 	}
 
 	// --- pppoe.IPPool, directly and through IPCP
